@@ -2,8 +2,11 @@ package checks
 
 import (
 	"bytes"
+	"context"
 	"encoding/json"
+	"errors"
 	"fmt"
+	"io"
 	"net"
 	"os"
 	"strings"
@@ -44,6 +47,14 @@ func C42(e *simkern.Env) {
 	if tp.Bool(1, 3) {
 		transport = "tcp"
 	}
+	// serve-start hook: none | slow (parks a few times) | slow and failing for
+	// its first one or two invocations (those connections are refused)
+	hookMode := tp.Weighted([]int{5, 2, 2})
+	hookYields := 1 + tp.Draw(4)
+	hookFailFirst := 0
+	if hookMode == 2 {
+		hookFailFirst = 1 + tp.Draw(2)
+	}
 	staleFile := tp.Bool(1, 4) // a predecessor crashed and left its socket file behind (unix only)
 	T := time.Duration(tp.Pick(10, 0, 1, 90, 60)) * time.Second
 	nClients := 1 + tp.Draw(4)
@@ -72,6 +83,7 @@ func C42(e *simkern.Env) {
 	e.Knob("shm_clients", shmClient)
 	e.Knob("transport", transport)
 	e.Knob("stale_socket_file", staleFile)
+	e.Knob("serve_start_hook", []string{"none", "slow", "slow+failing"}[hookMode])
 	e.Knob("idle_timeout_s", int(T/time.Second))
 	e.Knob("clients", nClients)
 	e.Knob("rounds", rounds)
@@ -120,6 +132,31 @@ func C42(e *simkern.Env) {
 		srv := vgirpc.NewServer()
 		srv.SetServerID("u0")
 		hx.Register(srv)
+		// The serve-start hook runs in the goroutine of an accepted connection,
+		// before anything is read from it. While it runs for this listener's
+		// transport, an accepted connection is being handled.
+		inHook, hookCalls, hookRefusals := 0, 0, 0
+		flips := 0
+		if hookMode > 0 {
+			srv.SetServeStartHook(func(kind vgirpc.TransportKind, _ map[string]bool) error {
+				mine := string(kind) == transport
+				if mine {
+					inHook++
+					defer func() { inHook-- }()
+				}
+				hookCalls++
+				sim.Probe("serve-start-hook-ran")
+				for i := 0; i < hookYields; i++ {
+					sim.Y("serve-start-hook")
+				}
+				if mine && hookCalls <= hookFailFirst {
+					sim.Fault("serve-start-hook-fails")
+					hookRefusals++
+					return errors.New("scripted serve-start failure")
+				}
+				return nil
+			})
+		}
 
 		var (
 			issued       = map[int64]c42Call{} // nonce -> call
@@ -161,6 +198,10 @@ func C42(e *simkern.Env) {
 			}
 			if T == 0 {
 				violate("stopped-with-timeout-zero", siteOf("self-stop"), "idle timeout 0 (never self-terminate) but the listener closed itself at t=%v", now)
+				return
+			}
+			if inHook > 0 {
+				violate("stopped-while-connection-open", siteOf("self-stop"), "listener closed itself at t=%v while %d accepted connection(s) were inside the serve-start hook (handled, not yet closed); idle timeout %v", now, inHook, T)
 				return
 			}
 			if open := w.OpenConns(); len(open) > 0 {
@@ -237,6 +278,12 @@ func C42(e *simkern.Env) {
 			if open := w.OpenConns(); len(open) > 0 {
 				violate("returned-while-connection-open", siteOf("return"), "listener returned at t=%v while %d connection(s) were still being served (first: %s)", retAt, len(open), open[0].Name)
 			}
+			for _, c := range w.Conns {
+				if c.Accepted && c.ClosedAt < 0 {
+					violate("returned-while-connection-open", siteOf("return"), "listener returned at t=%v and accepted connection %s (dialled at t=%v, served=%v) was never closed by the server", retAt, c.Name, c.DialAt, c.WasOpen)
+					break
+				}
+			}
 			if transport == "unix" {
 				if _, err := os.Lstat(w.SocketPath()); err == nil {
 					violate("socket-file-left-behind", siteOf("return"), "RunUnix returned at t=%v and the socket file still exists", retAt)
@@ -269,6 +316,13 @@ func C42(e *simkern.Env) {
 			}
 			if rec.Refused {
 				sim.Probe("backlog-connection-reset")
+				return true
+			}
+			if hookRefusals > 0 && rec.Accepted && !rec.WasOpen && rec.ClosedBy == "server" {
+				// the serve-start hook failed for this connection: the server
+				// closed it without serving it
+				hookRefusals--
+				sim.Probe("connection-refused-by-serve-start-hook")
 				return true
 			}
 			violate("session-broken", site, "accepted connection %s (closed by %q) failed mid-session: %v", rec.Name, rec.ClosedBy, err)
@@ -477,7 +531,18 @@ func C42(e *simkern.Env) {
 			if awaiting > 0 && thinking == 0 && advStreak >= 3 {
 				return nil
 			}
-			acts := make([]simkern.Action, 0, len(advMenu))
+			acts := make([]simkern.Action, 0, len(advMenu)+1)
+			if hookMode > 0 && flips < 2 && !returned {
+				// the same Server also serves a (short-lived) pipe: its transport
+				// binding flips, so the next connection re-runs the serve-start hook
+				acts = append(acts, simkern.Action{Name: "serve a pipe on the same server", Weight: 2, Do: func() {
+					flips++
+					sim.Fault("transport-binding-flipped")
+					sim.Spawn(fmt.Sprintf("side-pipe%d", flips), func() {
+						srv.ServeWithContext(context.Background(), bytes.NewReader(nil), io.Discard)
+					})
+				}})
+			}
 			for i, d := range advMenu {
 				d := d
 				acts = append(acts, simkern.Action{Name: fmt.Sprintf("advance %v", d), Weight: advWeight[i], Do: func() {
@@ -674,7 +739,7 @@ func init() {
 		Stub:  []string{"listening socket and connections (listenw.Listener, hx.Pipe) behind the woven net.Listen seam", "socket file (regular stand-in file in a per-run scratch directory; created by bind, unlinked by the first Close like a net.Listen unix listener)", "protocol client (arrow-go IPC)", "scripted handlers and producer state"},
 		Quick: 640, Thorough: 32000,
 		Warm:       warmPipe,
-		FaultKinds: []string{"clock-advance", "operator-shutdown", "stale-socket-file"},
+		FaultKinds: []string{"clock-advance", "operator-shutdown", "stale-socket-file", "serve-start-hook-fails", "transport-binding-flipped"},
 		Assumptions: []string{
 			"a connection counts as open from the server's first Read on it until the first Close on either end; a connection the listener has handed out (or that sits in the backlog) but that the server has not begun to serve when the idle shutdown is decided races with the shutdown and may be served to completion or reset — no accept-based server can exclude that",
 			"idleness before a self-initiated stop is measured from the client-side close of the last served connection (never later than the server's own bookkeeping) or from bind; the instant judged is the listener's own Close, the return instant is only required to have no open connection",
